@@ -238,23 +238,32 @@ class Canon:
         (compound) assignment to the local itself."""
         lid = local.get("lid")
         d = self.defs.get(lid)
-        if d is None or d[0] != "let" or d[2]:
+        if d is None or d[2]:
             return None
         muts = [m for m in self.mutations if m[0] == lid]
-        if not muts:
-            return d[1]
-        let_stmt = None
-        for x, _ in H.walk(self.body["body"]):
-            if x.get("k") == "LetStmt" and x.get("init") is d[1]:
-                let_stmt = x
-                break
-        if let_stmt is None:
+        if d[0] == "param":
+            # `fn f(mut p: T)`: the value starts as the argument; updates must be statements of the body block
+            blk = self.body["body"]
+            val = {"k": "Local", "lid": lid, "name": local.get("name"), "ty": local.get("ty"), "sp": [0, 0, 0, 0], "initial": True}
+            if not muts:
+                return val
+        elif d[0] != "let":
             return None
-        blk = self.parent.get(id(let_stmt))
+        else:
+            if not muts:
+                return d[1]
+            let_stmt = None
+            for x, _ in H.walk(self.body["body"]):
+                if x.get("k") == "LetStmt" and x.get("init") is d[1]:
+                    let_stmt = x
+                    break
+            if let_stmt is None:
+                return None
+            blk = self.parent.get(id(let_stmt))
+            val = d[1]
         if blk is None or blk.get("k") != "Block":
             return None
         use_pos = (local.get("sp") or [None])[0]
-        val = d[1]
         for _, names, pos, node in sorted(muts, key=lambda m: m[2]):
             if use_pos is not None and pos > use_pos:
                 # a later update: fine unless the use can run again after it (shared loop)
@@ -471,6 +480,21 @@ class Canon:
             return p
         if k == "Lit":
             return H.show(n)
+        if k == "Binary" and n["op"] in ("+", "*", "&", "|", "^"):
+            # associative-commutative chains are flattened and ordered: a + (b + c), (c + a) + b print alike
+            op = n["op"]
+            terms = []
+
+            def flat(x):
+                x0 = peel(x)
+                if x0.get("k") == "Binary" and x0["op"] == op:
+                    flat(x0["l"])
+                    flat(x0["r"])
+                else:
+                    terms.append(self.c(x0, d))
+            flat(n)
+            if len(terms) > 2:
+                return "(" + (" %s " % op).join(sorted(terms)) + ")"
         if k == "Binary":
             op = n["op"]
             l, r = self.c(n["l"], d), self.c(n["r"], d)
@@ -1023,16 +1047,31 @@ class Index:
             p = p[len(idx) + 1:]
         return [(v if not p else None, n0)]
 
-    def local_value_cases(self, lid):
-        """value cases of a local: of its initialiser, or — for `let x;` initialised later — its assignments"""
+    def local_value_cases(self, lid, _depth=0):
+        """value cases of a local: of its initialiser, or — for `let x;` initialised later — its assignments;
+        a case that is itself an immutable / deferred-initialised local is followed to that local's cases"""
         d = self.canon.defs.get(lid)
         if d is not None and d[0] == "let":
-            return self.value_cases(d[1], d[2])
+            raw = self.value_cases(d[1], d[2])
+        else:
+            raw = []
+            for x, _ in H.walk(self.root):
+                if x.get("k") == "Assign" and peel(x["l"]).get("k") == "Local" and peel(x["l"])["lid"] == lid:
+                    for v, _s in self.value_cases(x["r"]):
+                        raw.append((v, x))
         out = []
-        for x, _ in H.walk(self.root):
-            if x.get("k") == "Assign" and peel(x["l"]).get("k") == "Local" and peel(x["l"])["lid"] == lid:
-                for v, _s in self.value_cases(x["r"]):
-                    out.append((v, x))
+        for v, site in raw:
+            v0 = peel(v) if v is not None else None
+            if v0 is not None and v0.get("k") == "Local" and v0["lid"] != lid and _depth < 4:
+                d2 = self.canon.defs.get(v0["lid"])
+                deferred = d2 is None and any(m[0] == v0["lid"] for m in self.canon.mutations)
+                plain = d2 is not None and d2[0] == "let" and not d2[3] and v0["lid"] not in self.canon.assigned
+                if deferred or plain:
+                    sub = self.local_value_cases(v0["lid"], _depth + 1)
+                    if sub:
+                        out += sub
+                        continue
+            out.append((v, site))
         return out
 
     GUARD_KINDS = ("guard", "guard-else", "let-else", "arm-exit", "ok_or")
